@@ -23,6 +23,14 @@ SUBS = {
 }
 
 
+SUBS["sub_kwidx"] = {"name": "sub_kwidx", "params": [["a", NODEFAULT]],
+                     "body": [{"k": "call", "fn": "pair", "args": [["p", "a"]], "kwargs": {}, "flag": None, "out": "q"},
+                              {"k": "call", "fn": "add", "args": [["v", "q", [0]]], "kwargs": {"y": ["v", "q", [1]]}, "flag": None, "out": "w0"},
+                              {"k": "call", "fn": "pair_u", "args": [["v", "w0", []]], "kwargs": {}, "flag": None, "out": ["ua", "ub"]},
+                              {"k": "call", "fn": "add", "args": [["p", "a"]], "kwargs": {"y": ["v", "ub", []]}, "flag": None, "out": "w1"}],
+                     "ret": ["atom", ["v", "w1", []]], "subs": []}
+
+
 def projections(var: str, kind: str) -> List[list]:
     if kind in ("int", "bool", "opt"):
         return [["v", var, []]]
@@ -73,6 +81,7 @@ def statements(i: int, env: List[Tuple[str, str]], params: List[str], ops: List[
             yield {"k": "sub", "dag": "sub_inc", "args": [a], "flag": None, "out": out}, [(out, "int")]
             yield {"k": "sub", "dag": "sub_add", "args": [a], "flag": None, "out": out}, [(out, "int")]
             yield {"k": "sub", "dag": "sub_pair", "args": [a], "flag": None, "out": [out + "a", out + "b"]}, [(out + "a", "int"), (out + "b", "int")]
+            yield {"k": "sub", "dag": "sub_kwidx", "args": [a], "flag": None, "out": out}, [(out, "int")]
     for a, b in pairs():
         yield {"k": "call", "fn": "add", "args": [a, b], "kwargs": {}, "flag": None, "out": out}, [(out, "int")]
         yield {"k": "call", "fn": "add", "args": [a], "kwargs": {"y": b}, "flag": None, "out": out}, [(out, "int")]
